@@ -2,6 +2,7 @@ package main
 
 import (
 	"fmt"
+	"math"
 	"math/big"
 	"strconv"
 	"strings"
@@ -11,7 +12,9 @@ import (
 
 // rawCase emits one line of a non-ctxop kind; f returns the text after "=>".
 func (rn *runner) rawCase(kind, input string, nontrivial bool, tag string, f func() string) {
-	res := guarded(func() callResult { return callResult{panic: "", d: nil, err: nil, aux: 0, res: 0, hang: false, text: f()} })
+	res := guarded(func() callResult {
+		return callResult{panic: "", d: nil, err: nil, aux: 0, res: 0, hang: false, text: f()}
+	})
 	rn.lines++
 	id := strconv.Itoa(rn.lines)
 	full := kind + " " + input
@@ -332,5 +335,44 @@ func (rn *runner) streamConv(g *gen) {
 			fd.Exponent = int32(g.r.Intn(700) - 350)
 		}
 		rn.f64Case(fd)
+		rn.f64Case(g.nearFloatMidpoint())
 	}
+}
+
+// nearFloatMidpoint returns a decimal at, or a far digit away from, the exact midpoint of two
+// adjacent float64 values (or a float64 itself): the inputs on which "nearest float64" is decided by a
+// digit arbitrarily far down the coefficient.
+func (g *gen) nearFloatMidpoint() *apd.Decimal {
+	var f float64
+	switch g.r.Intn(4) {
+	case 0:
+		f = float64(uint64(1)<<53 + uint64(g.r.Intn(1<<20))) // integers above 2^53
+	case 1:
+		f = math.Float64frombits(g.r.Uint64()&0x000fffffffffffff | uint64(1023-40+g.r.Intn(100))<<52)
+	case 2:
+		f = math.Float64frombits(g.r.Uint64()&0x000fffffffffffff | uint64(1+g.r.Intn(2046))<<52) // any normal
+	default:
+		f = math.Float64frombits(g.r.Uint64() & 0x000fffffffffffff) // subnormal
+	}
+	next := math.Nextafter(f, math.Inf(1))
+	m := new(big.Float).SetPrec(2000).SetFloat64(f)
+	if g.r.Intn(5) != 0 && !math.IsInf(next, 0) {
+		m.Add(m, new(big.Float).SetPrec(2000).SetFloat64(next))
+		m.Quo(m, big.NewFloat(2))
+	}
+	d := new(apd.Decimal)
+	if _, _, err := d.SetString(m.Text('e', 1100)); err != nil {
+		return apd.New(1, 0)
+	}
+	d.Reduce(d) // the exact decimal expansion of the midpoint
+	// move a far digit: append k zeros and add -1, 0 or +1
+	k := int64(g.pick(1, 2, 5, 17, 18, 20, 34, 35, 40, 60, 100, 300))
+	delta := int64(g.r.Intn(3) - 1)
+	co := d.Coeff.MathBigInt()
+	co.Mul(co, pow10(int(k)))
+	co.Add(co, big.NewInt(delta))
+	d.Coeff.SetMathBigInt(co)
+	d.Exponent -= int32(k)
+	d.Negative = g.r.Intn(2) == 0
+	return d
 }
